@@ -13,10 +13,10 @@ func c16MaxLen() int {
 	return 6
 }
 
-// VH_C16_ParamListVsGrammar: ParseParameterisedList on every string of length 0..4 (quick) / 0..6 (thorough)
+// VH_C10_C16_ParamListVsGrammar: ParseParameterisedList on every string of length 0..4 (quick) / 0..6 (thorough)
 // over all 256 byte values (fully symbolic): accepts exactly what an independent draft-09 recogniser accepts,
 // with the same labels, keys and item values.
-func VH_C16_ParamListVsGrammar() {
+func VH_C10_C16_ParamListVsGrammar() {
 	vh.MustReach("accept", "reject")
 	L := vh.Choose(c16MaxLen() + 1)
 	in := vh.String("in", L)
@@ -45,8 +45,8 @@ func VH_C16_ParamListVsGrammar() {
 	}
 }
 
-// VH_C16_ListOfListsVsGrammar: same for ParseListOfLists.
-func VH_C16_ListOfListsVsGrammar() {
+// VH_C10_C16_ListOfListsVsGrammar: same for ParseListOfLists.
+func VH_C10_C16_ListOfListsVsGrammar() {
 	vh.MustReach("accept", "reject")
 	L := vh.Choose(c16MaxLen() + 1)
 	in := vh.String("in", L)
@@ -206,9 +206,9 @@ func VH_C16_RoundTripKeys() {
 	c16Check(label, keys, params)
 }
 
-// VH_C16_ByteSequence: "*" + 0..6 fully symbolic bytes + "*" through ParseListOfLists vs the reference: covers
+// VH_C10_C16_ByteSequence: "*" + 0..6 fully symbolic bytes + "*" through ParseListOfLists vs the reference: covers
 // every padding shape (lengths mod 4, '=' placement), the alphabet boundary and trailing bits.
-func VH_C16_ByteSequence() {
+func VH_C10_C16_ByteSequence() {
 	vh.MustReach("accept", "reject")
 	n := vh.Choose(7 + 2*vh.Tier())
 	in := "*" + vh.String("b", n) + "*"
